@@ -90,6 +90,37 @@ class Ctx(object):
         self._violation(label, call, info)
         return False
 
+    def must_be_sat(self, label, names, formula, info=None, grid_n=6):
+        """Obligation: SOME call shape satisfies ``formula``.  A violation has no witness; replay
+        confirms it by really evaluating the formula on a grid of calls (n <= grid_n, every keyword
+        subset of names, with and without a foreign keyword) and finding none."""
+        self.labels_seen.append(label)
+        self.counters['obl:' + label.split('[')[0]] += 1
+        if self.twin:
+            return self._twin(label)
+        if self.mode == 'replay':
+            t = self.target
+            if t is not None and t.get('label') == label:
+                import itertools
+                found = False
+                for n in range(grid_n + 1):
+                    for r in range(len(names) + 1):
+                        for kws in itertools.combinations(names, r):
+                            for fo in (False, True):
+                                if formula.real((n, frozenset(kws), fo)):
+                                    found = True
+                self.reproduced = not found
+            return True
+        with sym.notrace():
+            verdict, call = self.solver.find(names, formula, None)
+            if verdict == 'sat':
+                return True
+            if verdict == 'unknown':
+                self.unknown_queries += 1
+                return True
+        self._violation(label, None, info)
+        return False
+
     def satisfiable(self, names, formula, consts=None):
         """Auxiliary query (vacuity guards, raise conditions): is there a call with formula?
         -> True / False / None(unknown).  Replay mode: None (not needed to confirm a witness)."""
